@@ -15,6 +15,16 @@
 //!     Output per name: {"n", "l", "canon", "cl", "again_same": bool, "fresh_same": bool}
 //!     (again/fresh: the JSON of a repeated lookup on the same / on the second context equals the first).
 //!
+//!   rv-names history --in jobs.ndjson --out res.ndjson [--timeout-ms N]
+//!       optional first line {"names": [...]} (shared query strings); other lines
+//!       {"id": n, "base": "empty"|"bundled", "stages": [{"defs": text, "ask": bool}], "names": [...] (optional, own list)}
+//!     ONE long-lived Context: starts as `base`, then for every stage `Context::load_definitions(defs)` (a further
+//!     load into the same context) and, when `ask`, every name is looked up twice, canonicalised and the canonical
+//!     name looked up - on that same context, which has answered all earlier stages' questions.  `fresh_same`
+//!     compares with a context that was built from the same loads and has never been asked anything.
+//!     Output per job: {"id", "stages": [{"errors", "reg" (as in `small`), "reg_fresh_same": the never-asked context has
+//!     the same registry, "hits" (as in `small`; absent when not asked)}]}
+//!
 //! Values are rv_harness::obs::number_json (limb arrays), names code point arrays.
 use rink_core::Context;
 use rv_harness::astjson::numeric_json;
@@ -82,11 +92,67 @@ fn small_job(names: &[String], job: &Value) -> Value {
     json!({"id": job["id"], "errors": errors, "reg": small_registry(&ctx), "hits": hits})
 }
 
+fn base_ctx(kind: &str) -> Context {
+    let mut ctx = match kind {
+        "bundled" => rink_core::simple_context().expect("bundled context"),
+        _ => Context::new(),
+    };
+    ctx.use_humanize = false;
+    ctx
+}
+
+fn history_job(shared: &[String], job: &Value) -> Value {
+    let own: Vec<String>;
+    let names: &[String] = if job["names"].is_array() {
+        own = job["names"].as_array().unwrap().iter().map(untext).collect();
+        &own
+    } else {
+        shared
+    };
+    let base = job["base"].as_str().unwrap_or("empty");
+    let mut ctx = base_ctx(base);
+    let empty = vec![];
+    let stages = job["stages"].as_array().unwrap_or(&empty);
+    let mut out = vec![];
+    for (k, st) in stages.iter().enumerate() {
+        let mut errors = vec![];
+        if let Err(e) = ctx.load_definitions(st["defs"].as_str().unwrap_or("")) {
+            errors.push(e);
+        }
+        let reg = small_registry(&ctx);
+        // the same loads on a context that is never asked anything before this stage
+        let mut fresh = base_ctx(base);
+        for st2 in &stages[..=k] {
+            let _ = fresh.load_definitions(st2["defs"].as_str().unwrap_or(""));
+        }
+        let reg_fresh_same = small_registry(&fresh) == reg;
+        let mut o = json!({"errors": errors, "reg": reg, "reg_fresh_same": reg_fresh_same});
+        if st["ask"].as_bool().unwrap_or(true) {
+            let mut hits = vec![];
+            for (i, name) in names.iter().enumerate() {
+                let l = ctx.lookup(name);
+                let again = ctx.lookup(name);
+                let fr = fresh.lookup(name);
+                let canon = ctx.canonicalize(name);
+                let cl = canon.as_ref().and_then(|c| ctx.lookup(c));
+                if l.is_some() || again.is_some() || fr.is_some() || canon.is_some() {
+                    let lj = opt_num(&l);
+                    hits.push(json!({"i": i, "again_same": opt_num(&again) == lj, "fresh_same": opt_num(&fr) == lj, "l": lj,
+                                     "canon": canon.as_ref().map(|c| text(c)), "cl": opt_num(&cl)}));
+                }
+            }
+            o["hits"] = Value::Array(hits);
+        }
+        out.push(o);
+    }
+    json!({"id": job["id"], "stages": out})
+}
+
 fn main() {
     let args: Vec<String> = std::env::args().collect();
     let mode = args.get(1).cloned().unwrap_or_default();
-    if mode != "small" && mode != "run" {
-        eprintln!("usage: rv-names small|run [--ctx K] --in F --out F [--timeout-ms N]");
+    if mode != "small" && mode != "run" && mode != "history" {
+        eprintln!("usage: rv-names small|run|history [--ctx K] --in F --out F [--timeout-ms N]");
         std::process::exit(2);
     }
     let mut ctx_kind = "bundled".to_string();
@@ -110,14 +176,18 @@ fn main() {
         .map(|l| serde_json::from_str(&l).expect("job json"))
         .collect();
     let limits = Limits { per_job: Duration::from_millis(timeout_ms), address_space: 4 << 30, stack: 0 };
-    let results = if mode == "small" {
-        let names: Vec<String> = if !jobs.is_empty() && jobs[0]["names"].is_array() {
+    let results = if mode == "small" || mode == "history" {
+        let names: Vec<String> = if !jobs.is_empty() && jobs[0]["names"].is_array() && jobs[0].get("id").is_none() {
             let first = jobs.remove(0);
             first["names"].as_array().unwrap().iter().map(untext).collect()
         } else {
             vec![]
         };
-        run_isolated(&jobs, &limits, || (), |_, job| small_job(&names, job))
+        if mode == "small" {
+            run_isolated(&jobs, &limits, || (), |_, job| small_job(&names, job))
+        } else {
+            run_isolated(&jobs, &limits, || (), |_, job| history_job(&names, job))
+        }
     } else {
         let kind = ctx_kind.clone();
         run_isolated(&jobs, &limits, move || (make_ctx(&kind), make_ctx(&kind)), |st, job| {
